@@ -1,10 +1,13 @@
 #!/bin/sh
 # usage: dev/try_seed.sh <patch.diff> <check ids...>   - apply a seeded change to /repo, run checks, undo
 P=$1; shift
+rm -rf /tmp/verif_ev_backup && cp -r /verif/evidence /tmp/verif_ev_backup
 git -C /repo apply "$P" || exit 2
 for c in "$@"; do
   /verif/bin/check $c 2>&1 | grep -v "^VIOLATION" | tail -1
   /verif/bin/check $c 2>&1 | grep -c "^VIOLATION" | sed "s/^/   VIOLATION lines: /"
 done
 git -C /repo checkout -- .
+for c in "$@"; do cp /tmp/verif_ev_backup/$c.json /verif/evidence/$c.json 2>/dev/null; done
+rm -rf /tmp/verif_ev_backup
 git -C /repo status --short | head -3
